@@ -101,6 +101,7 @@ type checkOpts struct {
 	noReplay bool
 	verbose  bool
 	noEvid   bool
+	buildReplay bool
 }
 
 func optInt(opts map[string]string, tier, key string, def int) int {
@@ -128,6 +129,7 @@ func cmdCheck(args []string) int {
 	fs.BoolVar(&o.noReplay, "noreplay", false, "do not replay counterexamples")
 	fs.BoolVar(&o.verbose, "v", false, "verbose")
 	fs.BoolVar(&o.noEvid, "noevidence", false, "do not write the evidence file")
+	fs.BoolVar(&o.buildReplay, "buildreplay", false, "also build the native replay binary of every harness package when there is nothing to replay")
 	if len(args) < 1 {
 		fmt.Fprintln(os.Stderr, "usage: gosym check <property> [flags]")
 		return 2
@@ -136,6 +138,11 @@ func cmdCheck(args []string) int {
 	fs.Parse(args[1:])
 	if o.tier == "" {
 		o.tier = "quick"
+	}
+	if o.tier == "thorough" {
+		// the thorough tier also checks that every harness package's native replay binary builds
+		// (a counterexample that cannot be replayed would otherwise only show when one is found)
+		o.buildReplay = true
 	}
 	if s := os.Getenv("VERIF_SEED"); s != "" {
 		o.seed, _ = strconv.ParseInt(s, 10, 64)
